@@ -8,7 +8,7 @@ chains   reader element -> ('dec', file bytes -> ('code', compress call, offset)
 """
 import z3
 from .common import *
-from symx.core import implied, b_not, SymBool, mkbool, Infeasible, tobool
+from symx.core import implied, b_not, SymBool, mkbool, Infeasible, tobool, fx
 from shims import lazyarr
 from shims.lazyarr import LazyArr, DStr
 
@@ -380,6 +380,8 @@ def numpy_item(bs, rate, nb, props, opts=None):
         if 'C20' in props:
             shenv.ctx().last_store = st
             check_hash(E, dims, 'numpy')
+        if 'C18' in props:
+            check_crash_prefix(E, mm, st, None, dims, 'numpy', opts, H)
         if 'C01' in props or 'C04' in props or 'C05' in props:
             R = mm['read']
             with Quiet():
@@ -667,7 +669,102 @@ def finish_segy(E, mm, fs, st, model, dims, bs, rate, props, opts, window, H):
         check_window(E, mm, st, model, dims, bs, rate, win, label, H)
     if 'C08' in props:
         check_irregular(E, mm, st, model, dims, bs, rate, label, dict(opts, _H=H))
+    if 'C18' in props:
+        check_crash_prefix(E, mm, st, model, dims, label, opts, H)
     return stored
+
+
+def same_prov(a, b):
+    """Structural equality of two provenance values (tuples / ints / SymInts), SymInts by implication."""
+    if isinstance(a, tuple) and isinstance(b, tuple):
+        return len(a) == len(b) and all(same_prov(x, y) for x, y in zip(a, b))
+    if isinstance(a, (int, SymInt)) and isinstance(b, (int, SymInt)) and not isinstance(a, bool) and not isinstance(b, bool):
+        return implied(a == b)
+    if isinstance(a, LazyArr) or isinstance(b, LazyArr):
+        return a is b
+    try:
+        return bool(a == b)
+    except Exception:
+        return a is b
+
+
+def partial_store(E, st):
+    """The file as it is after a crash: a symbolic prefix of the recorded write sequence, the last write cut at a symbolic
+    byte (writes through second handles - the in-place patches - are part of the sequence)."""
+    from shims.lazybytes import LazyBytes
+    writes = list(st.writes)
+    p = int(E.fresh('crash_prefix', 0, len(writes)))
+    content = LazyBytes(0, [], True)
+    for k, (pos, n, b) in enumerate(writes[:p + 1]):
+        if k == p:
+            if p == len(writes):
+                break
+            cut = E.fresh('crash_cut', 0)
+            E.assume(cut < n)
+            if opts_granularity[0] == 'write':
+                E.assume(cut == 0)
+            n = cut
+            b = LazyBytes(n, [(0, n, b, 0)], False)
+        if k >= len(writes):
+            break
+        if implied(pos > content.length):
+            content.layers.append((content.length, pos - content.length, LazyBytes.zeros(pos - content.length), 0))
+        content.layers.append((pos, n, b, 0))
+        end = pos + n
+        if not implied(end <= content.length):
+            content.length = fx(end) if implied(end > content.length) else content.length
+    ps = shenv.FileStore(content, 'partial.sgz')
+    return ps, p, len(writes)
+
+
+opts_granularity = ['byte']
+
+
+def check_crash_prefix(E, mm, st, model, dims, label, opts, H):
+    """C18 writer side: every read on the partial file raises or returns what the complete file returns."""
+    import segyio
+    R = mm['read']
+    opts_granularity[0] = opts.get('granularity', 'byte')
+    ps, p, nw = partial_store(E, st)
+    E.reached(label + ':crash')
+    call = opts.get('call', 'header')
+    is2d = model is not None and model.kind == '2d'
+    ntr = dims[0] if is2d else dims[0] * dims[1]
+
+    def run(store):
+        with Quiet():
+            r = R.SgzReader(shenv.ShimFile(store))
+            if call == 'header':
+                t = E.fresh('trace', 0)
+                E.assume(t < ntr)
+                h = r.gen_trace_header(t)
+                return tuple(h[segyio.tracefield.TraceField(f)] for f in spec.TRACE_FIELDS)
+            if call == 'tracefield':
+                g = r.get_tracefield_values(opts.get('field', 189))
+                q = E.fresh('g', 0)
+                E.assume(q < ntr)
+                flat = g.reshape((g.size,)) if g.ndim > 1 else g
+                return (flat.shape[0], flat.get((q,)))
+            if call == 'voxel':
+                v = [E.fresh(n_, 0) for n_ in (('t', 'z') if is2d else ('i', 'x', 'z'))]
+                E.assume(b_and(*[v[k] < dims[k] for k in range(len(v))]))
+                if is2d:
+                    return r.read_subplane(v[0], v[0] + 1, v[1], v[1] + 1).get((0, 0))
+                return r.read_subvolume(v[0], v[0] + 1, v[1], v[1] + 1, v[2], v[2] + 1).get((0, 0, 0))
+            if call == 'hash':
+                return r.headerbytes.resolve(960, 20)
+            if call == 'geometry':
+                return (r.n_samples, r.tracecount)
+    try:
+        want = run(st)
+    except Exception as e:
+        want = ('raises', type(e).__name__)
+    try:
+        got = run(ps)
+    except Exception:
+        E.check(True, label + ': the partial file is refused')
+        return
+    E.check(same_prov(got, want), label + ': %s on the partial file (after %d of %d writes) equals the same call on the complete file' % (call, p, nw))
 
 
 def check_irregular(E, mm, st, model, dims, bs, rate, label, opts):
@@ -847,6 +944,8 @@ def items_for(prop, tier):
     lays = [((4, 4, 256), 8), ((4, 4, 1024), 2), ((4, 4, 8192), 0.25), ((64, 64, 4), 2), ((8, 8, 64), 8), ((4, 8, 128), 8),
             ((16, 16, 16), 8), ((8, 4, 128), 8)] if quick else valid_layouts_3d()
     for bs, rate in (lays if prop in ('C01', 'C03', 'C20') else []):
+        if prop == 'C18':
+            break
         nbs = [(2, 2, 2)] if quick else [(1, 1, 1), (2, 2, 2), (3, 2, 1), (1, 3, 2)]
         if quick and not (bs[0] == 4 and bs[1] == 4):
             # general layouts put one block per compress call: two blocks along two axes, rotating which axis has one
@@ -946,6 +1045,25 @@ def items_for(prop, tier):
                         solver_ms=10000 if quick else 60000)
                 it.meta = dict(kind='numpy', bs=[4, 4, 256], rate=8, nb=[2, 2, 1], opts=dict(o), prop=prop)
                 items.append(it)
+    if prop == 'C18':
+        from .runner import Item as _I
+        for det in ('heuristic', 'thorough'):
+            for call in ('header', 'tracefield', 'tracefield-first', 'voxel', 'hash', 'geometry'):
+                for gran in ('write', 'byte'):
+                    if quick and gran == 'byte' and call in ('voxel', 'geometry', 'tracefield-first'):
+                        continue
+                    o = dict(detection=det, call=call.split('-')[0], granularity=gran, varying=(73,), consts={37: 5}, ilxl=(2, 3), dimcap=4, ns_cap=2)
+                    if call == 'tracefield-first':
+                        o['field'] = 1      # the first field of the table: its array would be the first one in the footer
+                    desc = 'crash|segy|%s' % ','.join('%s=%s' % kv for kv in sorted(o.items()))
+                    it = _I(desc, (lambda o=o: segy_item('regular', (4, 4, 256), 8, (1, 1, 1), {'C18'}, o)), timeout_s=250 if quick else 1500)
+                    it.meta = dict(kind='segy-regular', bs=[4, 4, 256], rate=8, nb=[1, 1, 1], opts=dict(o), prop='C18')
+                    items.append(it)
+        for call in ('header', 'voxel', 'hash'):
+            o = dict(call=call, granularity='write', headers=((73, 'i4'),))
+            it = _I('crash|numpy|call=%s' % call, (lambda o=o: numpy_item((4, 4, 256), 8, (1, 1, 1), {'C18'}, o)), timeout_s=250 if quick else 1500)
+            it.meta = dict(kind='numpy', bs=[4, 4, 256], rate=8, nb=[1, 1, 1], opts=dict(o), prop='C18')
+            items.append(it)
     if prop == 'C08':
         from .runner import Item as _I
         cfgs = []
